@@ -148,12 +148,16 @@ theorem burnS_error_is_rejection {s : SState} {a d : Int} {key : AccKey} {err : 
   obtain ⟨s', hs'⟩ := burnS_accepts hv hT hS hd hd0 hdS hSr ha ha2 hr (by omega)
   rw [hs'] at h; cases h
 
-/-- **mint + delegate never fails on a healthy validator inside the 256-bit range.** -/
+theorem powLimit_lt_I256 : powLimit < I256 := by decide
+
+/-- **mint + delegate never fails on a healthy validator inside the 256-bit range whose tokens stay below `2⁶³` power
+units.** -/
 theorem mintS_accepts {s : SState} {a : Int} {key : AccKey} (hv : key.2 ∈ s.b.validators) (ha : 0 < a)
     (hT : 0 < (s.k.val key.2).tokens) (hS : 0 < (s.k.val key.2).shares)
     (hd0 : 0 ≤ shOf s.k key) (hdS : shOf s.k key ≤ (s.k.val key.2).shares)
-    (hTr : (s.k.val key.2).tokens + a < I256) (hSr : (s.k.val key.2).shares * (a + 1) ≤ decUpper) :
+    (hTr : (s.k.val key.2).tokens + a < powLimit) (hSr : (s.k.val key.2).shares * (a + 1) ≤ decUpper) :
     ∃ s', mintS s a key = .ok s' := by
+  have hTr' : (s.k.val key.2).tokens + a < I256 := by have := powLimit_lt_I256; omega
   have hSa : (s.k.val key.2).shares * a ≤ decUpper := by
     rw [Int.mul_add, Int.mul_one] at hSr; omega
   have hn0 : 0 ≤ (s.k.val key.2).shares * a := Int.mul_nonneg (Int.le_of_lt hS) (Int.le_of_lt ha)
@@ -162,7 +166,8 @@ theorem mintS_accepts {s : SState} {a : Int} {key : AccKey} (hv : key.2 ∈ s.b.
     have := Int.mul_le_mul_of_nonneg_left (show 1 ≤ (s.k.val key.2).tokens by omega) f3
     rw [Int.mul_one] at this
     omega
-  have hadd : ∃ v' i, (s.k.val key.2).addTokensFromDel a = some (v', i) ∧ 0 ≤ i ∧ i ≤ (s.k.val key.2).shares * a := by
+  have hadd : ∃ v' i, (s.k.val key.2).addTokensFromDel a = some (v', i) ∧ v'.tokens = (s.k.val key.2).tokens + a ∧
+      0 ≤ i ∧ i ≤ (s.k.val key.2).shares * a := by
     unfold Val.addTokensFromDel
     dsimp only
     rw [if_neg (by omega), if_neg (by omega)]
@@ -173,14 +178,17 @@ theorem mintS_accepts {s : SState} {a : Int} {key : AccKey} (hv : key.2 ∈ s.b.
     rw [if_neg (by omega)]
     dsimp only
     unfold Dec.add
-    rw [chkInt_of_range (by omega) hTr, chkDec_of_range (by omega) (by rw [Int.mul_add, Int.mul_one] at hSr; omega)]
-    exact ⟨_, _, rfl, f3, hle⟩
-  obtain ⟨v', i, hadd, hi0, hi1⟩ := hadd
+    rw [chkInt_of_range (by omega) hTr', chkDec_of_range (by omega) (by rw [Int.mul_add, Int.mul_one] at hSr; omega)]
+    exact ⟨_, _, rfl, rfl, f3, hle⟩
+  obtain ⟨v', i, hadd, hv't, hi0, hi1⟩ := hadd
+  have hpow : ¬ (powerOverflows v'.tokens = true) := by
+    rw [powerOverflows_iff, hv't]; omega
   unfold mintS
   rw [if_neg (by simpa using hv), if_neg (by omega)]
   dsimp only
   rw [if_neg (by omega), hadd]
   dsimp only
+  rw [if_neg hpow]
   cases hk : s.k.dsh key with
   | none =>
     have e : shOf s.k key = 0 := by unfold shOf; rw [hk]
